@@ -89,6 +89,10 @@ inductive Step (S : PSet) : SState V → SState V → Prop
         R := fun p => s.R p ∨ r p,
         M := fun p => s.M p ∨ (incr = false ∧ r p),
         C := fun p => s.C p ∧ ¬ (incr = false ∧ r p) }
+  /-- SetEncodings without CopyRect while a copy is pending: the pending copy is turned into
+  modified pixels (it will be sent as pixel data) -/
+  | dropCopy (s : SState V) (extra : PSet) :
+      Step S s { s with M := fun p => s.M p ∨ s.C p ∨ extra p, C := fun _ => False, d := (0, 0) }
   /-- rfbSendFramebufferUpdate that returns early (nothing to send): only copyRegion −= modified -/
   | sendNothing (s : SState V) :
       Step S s { s with C := fun p => s.C p ∧ ¬ s.M p }
